@@ -16,6 +16,13 @@ class Result:
 
     def __init__(self, prop):
         self.prop = prop
+        # replays of this property are rewritten by every run
+        import glob
+        for old in glob.glob(os.path.join(REPLAYS, prop + '-*.json')):
+            try:
+                os.unlink(old)
+            except OSError:
+                pass
         self.known = vlib.load_known()
         self.failures = []          # symbolised failure records (dicts)
         self.known_hits = collections.OrderedDict()
